@@ -608,6 +608,11 @@ func (it *interp) eval(n *Node, v ssa.Value, e env) AV {
 				if k := it.g.P.ConstGlobal(addr); k != nil {
 					return constAV(k)
 				}
+				// sentinel errors of the standard library (io.EOF, os.ErrNotExist, ...) are never nil
+				if addr.Pkg != nil && addr.Pkg.Pkg != nil && !strings.Contains(addr.Pkg.Pkg.Path(), ".") && addr.Object() != nil && addr.Object().Exported() &&
+					types.Identical(deref(addr.Type()), types.Universe.Lookup("error").Type()) {
+					return NonNilAV(ErrAny)
+				}
 			case *ssa.Alloc, *ssa.FreeVar:
 				if cc, al := it.cellOf(c, addr); al != nil {
 					if a, ok := e[vkey{c: cc, v: al, cell: true}]; ok {
